@@ -108,6 +108,15 @@ func (m *CubicallyInterpolatedMapping) approximateInverseLog(x float64) float64 
 	d1 := 2*B*B*B - 9*A*B*C - 27*A*A*(x-exponent)
 	p := math.Cbrt((d1 - math.Sqrt(d1*d1-4*d0*d0*d0)) / 2)
 	significandPlusOne := -(B+p+d0/p)/(3*A) + 1
+	// Because of rounding errors, significandPlusOne can end up right outside
+	// of [1, 2) when x is right above or right below an integer, which
+	// buildFloat64 does not support.
+	if significandPlusOne < 1 {
+		significandPlusOne = 1
+	} else if significandPlusOne >= 2 {
+		significandPlusOne /= 2
+		exponent++
+	}
 	return buildFloat64(int(exponent), significandPlusOne)
 }
 
